@@ -317,3 +317,17 @@ Example wirey_ex_roundtrip :
   span_wire_ok (fst (fst wirey_ex)) = true /\ extra_ok (snd (fst wirey_ex)) = true /\ more_ok (snd wirey_ex) = true /\
   dec_spany (enc_spany (fst (fst wirey_ex)) (snd (fst wirey_ex)) (snd wirey_ex)) = Some wirey_ex.
 Proof. split; [reflexivity|]. split; [reflexivity|]. split; [reflexivity|]. vm_compute. reflexivity. Qed.
+
+(* parseOTLP sends a payload whose first byte is '{' to parseOTLPJson (the legacy JSON form of the JS writer) and every other payload to
+   proto.Unmarshal.  A span this writer stores has a 16-byte trace id (onSpan refuses every other width), so its bytes begin with the tag of
+   field 1, wire type 2 = 0x0A: never '{'.  No row written by this writer is ever read through the legacy JSON path. *)
+Lemma enc_spany_first_byte s x y : id_widths_ok (o_trace s) (o_span s) = true ->
+  exists r, enc_spany s x y = String (ascii_of_N 10) r /\ ascii_of_N 10 <> "{"%char.
+Proof.
+  intro Hw. unfold id_widths_ok in Hw. apply andb_true_iff in Hw. destruct Hw as [Hw _]. apply Nat.eqb_eq in Hw.
+  unfold enc_spany, fields_spany, pieces. cbn [map snd List.concat]. unfold bytes_field at 1.
+  destruct (String.eqb_spec (o_trace s) "") as [E|_]; [rewrite E in Hw; discriminate|].
+  cbn [app ser_fields ser_field].
+  assert (Ev : enc_varint (1 * 8 + 2) = String (ascii_of_N 10) EmptyString) by (vm_compute; reflexivity).
+  rewrite Ev. cbn [String.append]. eexists. split; [reflexivity|]. vm_compute. discriminate.
+Qed.
